@@ -154,7 +154,7 @@ ExecMulDiv(s, i) ==
       err == [Res(s.regs, s.flags, Status, NoWrites, s.stack, {<<"INT", 0>>})
                 EXCEPT !.freeregs = {"ax", "dx"}]
   IN IF ~r.ok THEN err
-     ELSE IF r.qmin THEN [ok EXCEPT !.outs = {<<"NEXT", 0>>, <<"INT", 0>>},
+     ELSE IF r.qmin /\ AcceptMinQuotientTrap THEN [ok EXCEPT !.outs = {<<"NEXT", 0>>, <<"INT", 0>>},
                                    !.freeregs = {"ax", "dx"}, !.undef = Status]
      ELSE ok
 
